@@ -796,6 +796,19 @@ def is_impure_call(body, t):
     return False
 
 
+def discr_source(body, bb):
+    """canonical name of the place whose discriminant the switch ending block bb tests (None if it is not a discriminant switch)"""
+    from table import canon_place
+    t = body.blocks[bb]["term"]
+    if t["k"] != "switch" or t["discr"]["k"] not in ("copy", "move"):
+        return None
+    d = t["discr"]["place"]["l"]
+    for st in body.blocks[bb]["stmts"]:
+        if st["k"] == "assign" and st["dst"]["l"] == d and not st["dst"]["p"] and st["rv"]["k"] == "discr":
+            return canon_place(body, st["rv"]["place"], {})
+    return None
+
+
 def dominating_variant_facts(prog, body, bb):
     """[(canonical place, 'is'|'not', variants)] established by discriminant-switch edges dominating bb."""
     from table import canon_place
